@@ -12,7 +12,7 @@ RULE = (
     "Arrays with three independent sizes 1..48 (size-1 axes included), dtype float32/float64/int16/int8 with PRNG "
     "content over the full range of the type (seed drawn by Hypothesis), extension .mrc/.rec/.em, write options "
     "transpose on/off and data_type None/lossless target, then either read back, or converted em->mrc / mrc->em with "
-    "invert on/off, default/explicit output name and overwrite on/off against a pre-existing target. Oracle: own "
+    "invert on/off, default/explicit output name (input stems ending in m/r/c/. or containing dots included) and overwrite on/off against a pre-existing target. Oracle: own "
     "byte-level MRC2014 / EM parsers: header nx,ny,nz == array (x,y,z) shape, mode/type code == dtype (float64 "
     "narrowed to float32), voxel (i,j,k) at linear offset i + nx*(j + ny*k); read() returns the input shape and values; "
     "conversions preserve (negate) every voxel; overwrite=False raises and leaves the target's bytes unchanged. "
@@ -37,6 +37,7 @@ def strategy_case(draw):
     dtype = draw(st.sampled_from(list(DT)))
     op = draw(st.sampled_from(["write_read", "write_read", "em2mrc", "mrc2em", "invert_contrast"]))
     c = {"shape": shape, "dtype": dtype, "seed": draw(st.integers(0, 2**31 - 1)), "op": op,
+         "stem": draw(st.sampled_from(["in", "tomogram", "norm", "run1.c", "vol_7", "a.b", "mrc", "em", "x.mrc", "stack.em", "r", "data.rec"])),
          "content": draw(st.sampled_from(["full", "full", "small", "ramp"]))}
     if op == "write_read":
         c["ext"] = draw(st.sampled_from([".mrc", ".rec", ".em"]))
@@ -179,9 +180,10 @@ def run(case):
     if op in ("em2mrc", "mrc2em"):
         src_ext, dst_ext = (".em", ".mrc") if op == "em2mrc" else (".mrc", ".em")
         stored = a.astype(stored_dtype(a.dtype))
-        src = "in" + src_ext
+        stem = case.get("stem", "in")
+        src = stem + src_ext
         (oracle.em_write if src_ext == ".em" else oracle.mrc_write)(src, stored)
-        dst = "out_named" + dst_ext if case["explicit_name"] else "in" + dst_ext
+        dst = "out_named" + dst_ext if case["explicit_name"] else stem + dst_ext
         pre = None
         if case["preexisting"]:
             (oracle.em_write if dst_ext == ".em" else oracle.mrc_write)(dst, np.ones((2, 3, 2), np.float32))
